@@ -3,13 +3,14 @@
 use vstd::prelude::*;
 verus! {
 //@include inc/attr_abs.rs
+//@include inc/std_retain.rs
 
 // ---------------------------------------------------------------- stun-agent/src/message.rs
 //@include inc/attrset_vocab.rs
 impl StunAttributes {
 //@item stun_agent :: mod message > impl StunAttributes > fn add
 //@tags C13
-//@rules R6P
+//@rules R6P?
 //@sig
 pub fn add(&mut self, attribute: StunAttribute)
 //@sub "let attr = attribute.into();" => "let attr = attribute;"
@@ -40,7 +41,7 @@ pub fn add(&mut self, attribute: StunAttribute)
 //@end
 //@item stun_agent :: mod message > impl StunAttributes > fn remove
 //@tags C13
-//@rules R6P
+//@rules R6P?
 //@closure 1
 |a: &StunAttribute| -> (b: bool)
     ensures b == (a.ty() == T::spec_type()),
